@@ -34,7 +34,8 @@ class Spec(object):
     # ---- helpers
     @staticmethod
     def clone(st):
-        return {k: {'ent': o['ent'], 'pk': o['pk'], 'vals': dict(o['vals'])} for k, o in st.items()}
+        return {k: {'ent': o['ent'], 'pk': o['pk'], 'vals': {a: (set(v) if isinstance(v, set) else v) for a, v in o['vals'].items()}}
+                for k, o in st.items()}
 
     def new_session(self):
         self.by_py, self.py_of, self.keep = {}, {}, []
@@ -59,34 +60,90 @@ class Spec(object):
 
     def attr(self, e, a): return self.S[e]['attrs'][a]
 
+    def default(self, e, a):
+        """Value of an attribute that was not given (or given as None): an Optional str that is (part of) a unique key is nullable and
+        defaults to None, any other Optional str to ''."""
+        at = self.attr(e, a)
+        if at['k'] == 'str' and not at['req'] and (at['uniq'] or any(a in ck for ck in self.S[e].get('ckeys', []))): return None
+        return DEFAULTS[at['k']]
+
+    def kind(self, e, a):
+        """'int' | 'str' | 'm2o' (reference, reverse is a collection) | 'o2m' (its collection) | 'm2m' | 'o2o' (stage 2: the last two)."""
+        at = self.attr(e, a)
+        if at['k'] in ('int', 'str'): return at['k']
+        rk = self.attr(at['tgt'], at['rev'])['k']
+        if at['k'] == 'ref': return 'm2o' if rk == 'set' else 'o2o'
+        return 'o2m' if rk == 'ref' else 'm2m'
+
+    def canonical(self, e, a):
+        at = self.attr(e, a)
+        return (e, a) < (at['tgt'], at['rev'])
+
+    def pairs(self, st, e, a):
+        """many-to-many links of the canonical side (e, a) in state st: set of (id on this side, id on the other side), live ends only."""
+        return set((x, y) for x, o in st.items() if o['ent'] == e for y in (o['vals'].get(a) or ()) if y in st)
+
     def members(self, x, a):
-        at = self.attr(self.cur[x]['ent'], a)
+        e = self.cur[x]['ent']; at = self.attr(e, a)
+        if self.kind(e, a) == 'm2m':
+            if self.canonical(e, a): return set(y for y in (self.cur[x]['vals'].get(a) or ()) if y in self.cur)
+            return set(k for k, o in self.cur.items() if o['ent'] == at['tgt'] and x in (o['vals'].get(at['rev']) or ()))
         return set(k for k, o in self.cur.items() if o['ent'] == at['tgt'] and o['vals'].get(at['rev']) == x)
 
     def cascade(self, e, a):
         at = self.attr(e, a)
-        return self.attr(at['tgt'], at['rev'])['req']
+        return self.kind(e, a) == 'o2m' and self.attr(at['tgt'], at['rev'])['req']
+
+    def m2m_change(self, x, a, items, add):
+        e = self.cur[x]['ent']; at = self.attr(e, a)
+        for b in items:
+            if b not in self.cur: continue
+            owner, slot, other = (x, a, b) if self.canonical(e, a) else (b, at['rev'], x)
+            cur = self.cur[owner]['vals'].get(slot)
+            if cur is None: cur = self.cur[owner]['vals'][slot] = set()
+            if add: cur.add(other)
+            else: cur.discard(other)
+
+    def set_o2o(self, x, a, y):
+        """x.a = y for a one-to-one attribute: both previous partners lose their side."""
+        at = self.attr(self.cur[x]['ent'], a)
+        old = self.cur[x]['vals'].get(a)
+        if old is not None and old in self.cur and old != y: self.cur[old]['vals'][at['rev']] = None
+        if y is not None:
+            yold = self.cur[y]['vals'].get(at['rev'])
+            if yold is not None and yold in self.cur and yold != x: self.cur[yold]['vals'][a] = None
+            self.cur[y]['vals'][at['rev']] = x
+        self.cur[x]['vals'][a] = y
 
     def delete(self, x):
         if x not in self.cur: return
         e = self.cur[x]['ent']
         for a, at in enumerate(self.S[e]['attrs']):
-            if at['k'] != 'set' or x not in self.cur: continue
-            for b in sorted(self.members(x, a)):
-                if b not in self.cur: continue
-                if self.cascade(e, a): self.delete(b)
-                else: self.cur[b]['vals'][at['rev']] = None
+            if x not in self.cur: return
+            k = self.kind(e, a)
+            if k == 'o2m':
+                for b in sorted(self.members(x, a)):
+                    if b not in self.cur: continue
+                    if self.cascade(e, a): self.delete(b)
+                    else: self.cur[b]['vals'][at['rev']] = None
+            elif k == 'm2m':
+                self.m2m_change(x, a, list(self.members(x, a)), False)
+            elif k == 'o2o':
+                p = self.cur[x]['vals'].get(a)
+                if p is not None and p in self.cur: self.cur[p]['vals'][at['rev']] = None
         self.cur.pop(x, None)
 
     def unlink(self, x, a, items):
         e = self.cur[x]['ent']; at = self.attr(e, a)
+        if self.kind(e, a) == 'm2m': return self.m2m_change(x, a, items, False)
         for b in sorted(items):
             if b in self.cur and self.cur[b]['vals'].get(at['rev']) == x:
                 if self.cascade(e, a): self.delete(b)
                 else: self.cur[b]['vals'][at['rev']] = None
 
     def link(self, x, a, items):
-        at = self.attr(self.cur[x]['ent'], a)
+        e = self.cur[x]['ent']; at = self.attr(e, a)
+        if self.kind(e, a) == 'm2m': return self.m2m_change(x, a, items, True)
         for b in items:
             if b in self.cur: self.cur[b]['vals'][at['rev']] = x
 
@@ -107,7 +164,7 @@ class Spec(object):
         at = self.attr(e, a)
         if at['k'] in ('int', 'str'):
             if isinstance(v, dict): return ('dead', None)
-            return ('val', DEFAULTS['str'] if (v is None and at['k'] == 'str') else v)
+            return ('val', self.default(e, a) if (v is None and at['k'] == 'str') else v)
         objs = objs_of(v)
         if objs == 'bad handle': return ('dead', None)
         if at['k'] == 'ref':
@@ -152,17 +209,20 @@ class Spec(object):
             e, pk, kw = op[1], op[2], op[3]
             obj = rn.handles[res[1]]
             vals, sets = {}, []
+            o2o = []
             for a, at in enumerate(self.S[e]['attrs']):
-                if at['k'] != 'set': vals[a] = DEFAULTS[at['k']]
+                if at['k'] != 'set': vals[a] = self.default(e, a)
             for a, v in kw:
                 kind, x = self.val_of(e, a, v, objs_of)
                 if kind == 'dead': return self.stop('deleted object used as a value')
                 if kind == 'set': sets.append((a, x))
+                elif self.kind(e, a) == 'o2o': o2o.append((a, x))
                 else: vals[a] = x
             x = self.next_id; self.next_id += 1
             self.cur[x] = {'ent': e, 'pk': pk, 'vals': vals}
             self.by_py[id(obj)] = x; self.keep.append(obj)
             if pk is None: self.py_of[x] = obj
+            for a, y in o2o: self.set_o2o(x, a, y)
             for a, items in sets: self.link(x, a, items)
             self.learn_pks()
             return
@@ -186,14 +246,15 @@ class Spec(object):
             return
         if k == 'setmany':
             if not ok: return
-            sets = []
-            new = dict(self.cur[x]['vals'])
+            sets, plain, o2o = [], [], []
             for a, v in op[2]:
                 kind, y = self.val_of(e, a, v, objs_of)
                 if kind == 'dead': return self.stop('deleted object used as a value')
                 if kind == 'set': sets.append((a, y))
-                else: new[a] = y
-            self.cur[x]['vals'] = new
+                elif self.kind(e, a) == 'o2o': o2o.append((a, y))
+                else: plain.append((a, y))
+            for a, y in plain: self.cur[x]['vals'][a] = y
+            for a, y in o2o: self.set_o2o(x, a, y)
             for a, items in sets:
                 if x in self.cur: self.assign(x, a, items)
             return
@@ -204,7 +265,8 @@ class Spec(object):
             if not ok or at['k'] == 'set': return
             kind, y = self.val_of(e, a, op[3], objs_of)
             if kind != 'val': return self.stop('deleted object used as a value')
-            self.cur[x]['vals'][a] = y
+            if self.kind(e, a) == 'o2o': self.set_o2o(x, a, y)
+            else: self.cur[x]['vals'][a] = y
             return
         if k == 'read':
             if not ok:
@@ -289,7 +351,7 @@ class Spec(object):
                 got = self.sid(rn.handles[res[1]], e)
                 if got not in want or len(want) != 1:
                     self.bad('c10-getby', 'E%d.get(a%d=%r) returned %r, expected %s' % (e, a, v, rn.handles[res[1]], self.shows(want)))
-        elif res[1] == 'MultipleObjects' and len(want) <= 1:
+        elif res[1] == 'Multiple' and len(want) <= 1:
             self.bad('c10-getby', 'E%d.get(a%d=%r) raised MultipleObjectsFoundError, the session has %s' % (e, a, v, self.shows(want)))
 
     def key_conflict_pending(self, e):
@@ -298,6 +360,9 @@ class Spec(object):
             if o['ent'] != e: continue
             ks = [('id', o['pk'])] if o['pk'] is not None else []
             ks += [(a, o['vals'].get(a)) for a, at in enumerate(self.S[e]['attrs']) if at['k'] in ('int', 'str') and at['uniq'] and o['vals'].get(a) is not None]
+            for ck in self.S[e].get('ckeys', []):
+                vs = tuple(o['vals'].get(a) for a in ck)
+                if None not in vs: ks.append((tuple(ck), vs))
             for k in ks:
                 if k in seen: return True
                 seen.add(k)
@@ -318,7 +383,7 @@ class Spec(object):
     def shows(self, xs): return '[' + ', '.join(sorted(self.show(x) for x in xs)) + ']'
 
     # ---- committed rows
-    def rows(self, st):
+    def rows(self, st, has_column=None):
         out = []
         for e, ent in enumerate(self.S):
             tab = []
@@ -327,6 +392,7 @@ class Spec(object):
                 cols = []
                 for a, at in enumerate(ent['attrs']):
                     if at['k'] == 'set': continue
+                    if has_column is not None and not has_column(e, a): continue
                     v = o['vals'].get(a)
                     if at['k'] == 'ref' and v is not None:
                         v = st[v]['pk'] if v in st else ('<deleted #%d>' % v)
@@ -336,11 +402,28 @@ class Spec(object):
             out.append(tab)
         return out
 
-    def check_dump(self, d):
+    def link_rows(self, st):
+        out = {}
+        for e, ent in enumerate(self.S):
+            for a, at in enumerate(ent['attrs']):
+                if at['k'] == 'set' and self.kind(e, a) == 'm2m' and self.canonical(e, a):
+                    lo, hi = sorted([(e, a), (at['tgt'], at['rev'])])
+                    out['L_%d_%d_%d_%d' % (lo + hi)] = sorted((st[x]['pk'], st[y]['pk']) for x, y in self.pairs(st, e, a))
+        return out
+
+    def check_dump(self, d, links=None, has_column=None):
         """Compare the rows of a dump point with `committed`. Returns (check, detail) or None."""
         if self.stopped: return None
-        want = self.rows(self.committed)
-        if want == d: return None
+        want = self.rows(self.committed, has_column)
+        if want == d:
+            wl = self.link_rows(self.committed)
+            for t in sorted(wl):
+                got = [tuple(r) for r in (links or {}).get(t, [])]
+                for r in got:
+                    if r not in wl[t]: return self.bad_dump('c09-link-row-not-committed-by-program', 'table %s has the link %r; the program committed %r' % (t, r, wl[t]))
+                for r in wl[t]:
+                    if r not in got: return self.bad_dump('c09-committed-link-row-missing', 'table %s lacks the link %r the program committed; it has %r' % (t, r, got))
+            return None
         for e, (tw, td) in enumerate(zip(want, d)):
             pw = {r[0]: r[1] for r in tw}; pd = {r[0]: r[1] for r in td}
             for pk in pd:
